@@ -12,7 +12,7 @@ import Mathlib.Analysis.SpecialFunctions.Sqrt
   A direction is a sign `s = 1` (right) or `s = -1` (left); points near `w` on that side are
   `w + s * t` with `t > 0` small.
 -/
-namespace Skglm.Proofs
+namespace Skglm.Proofs.SD
 open Skglm Skglm.Spec
 
 /-- the sub-gradient inequality on one side of `w` -/
@@ -259,4 +259,210 @@ theorem subgrad_iff_of_quad {φ : ℝ → Option ℝ} {w : ℝ} (fw d c g : ℝ)
     IsRegSubgrad φ w g ↔ g = d :=
   subgrad_iff_of_deriv g (hasDerivAt_quad fw d c w) hφ
 
-end Skglm.Proofs
+/-! ### quadratic error bounds -/
+
+theorem SideSlope.of_quad_bound {φ : ℝ → Option ℝ} {w fw d s : ℝ} (C : ℝ)
+    (hφ : ∃ δ > 0, ∀ t, 0 < t → t < δ →
+      ∃ fv, φ (w + s * t) = some fv ∧ |fv - fw - d * (s * t)| ≤ C * t ^ 2) :
+    SideSlope φ w fw d s := by
+  intro ε hε
+  obtain ⟨δ, hδ, H⟩ := hφ
+  have hC : 0 < |C| + 1 := by positivity
+  refine ⟨min δ (ε / (|C| + 1)), lt_min hδ (div_pos hε hC), fun t ht htδ => ?_⟩
+  obtain ⟨fv, hfv, hb⟩ := H t ht (lt_of_lt_of_le htδ (min_le_left _ _))
+  refine ⟨fv, hfv, hb.trans ?_⟩
+  have h1 : t < ε / (|C| + 1) := lt_of_lt_of_le htδ (min_le_right _ _)
+  have h2 : t * (|C| + 1) < ε := (lt_div_iff₀ hC).1 h1
+  have h3 : C ≤ |C| := le_abs_self C
+  nlinarith [mul_pos ht ht, mul_lt_mul_of_pos_right h2 ht,
+    mul_nonneg (sub_nonneg.2 h3) (mul_pos ht ht).le]
+
+theorem subgrad_iff_of_quad_bound {φ : ℝ → Option ℝ} {w : ℝ} (fw d C g : ℝ)
+    (hφ : ∃ δ > 0, ∀ v, |v - w| < δ →
+      ∃ fv, φ v = some fv ∧ |fv - fw - d * (v - w)| ≤ C * (v - w) ^ 2) :
+    IsRegSubgrad φ w g ↔ g = d := by
+  obtain ⟨δ, hδ, H⟩ := hφ
+  have h0 : φ w = some fw := by
+    obtain ⟨fv, hfv, hb⟩ := H w (by simpa using hδ)
+    simp only [sub_self, mul_zero, ne_eq, OfNat.ofNat_ne_zero, not_false_eq_true, zero_pow,
+      sub_zero, abs_nonpos_iff] at hb
+    rw [hfv]; congr 1; linarith
+  refine subgrad_iff_smooth g h0 ?_ ?_
+  · refine SideSlope.of_quad_bound C ⟨δ, hδ, fun t ht htδ => ?_⟩
+    have e : w + -1 * t - w = -1 * t := by ring
+    obtain ⟨fv, hfv, hb⟩ := H (w + -1 * t) (by
+      rw [e, neg_one_mul, abs_neg, abs_of_pos ht]; exact htδ)
+    refine ⟨fv, hfv, ?_⟩
+    rw [e] at hb
+    have e2 : (-1 * t) ^ 2 = t ^ 2 := by ring
+    rw [e2] at hb
+    exact hb
+  · refine SideSlope.of_quad_bound C ⟨δ, hδ, fun t ht htδ => ?_⟩
+    have e : w + 1 * t - w = 1 * t := by ring
+    obtain ⟨fv, hfv, hb⟩ := H (w + 1 * t) (by
+      rw [e, one_mul, abs_of_pos ht]; exact htδ)
+    refine ⟨fv, hfv, ?_⟩
+    rw [e] at hb
+    have e2 : (1 * t) ^ 2 = t ^ 2 := by ring
+    rw [e2] at hb
+    exact hb
+
+/-- two-sided: near `w`, `φ` is one of two quadratic polynomials with the same value and slope
+    at `w` (C¹ junction of two pieces) -/
+theorem subgrad_iff_of_two_quads {φ : ℝ → Option ℝ} {w : ℝ} (fw d c₁ c₂ g : ℝ)
+    (hφ : ∃ δ > 0, ∀ v, |v - w| < δ →
+      φ v = some (fw + d * (v - w) + c₁ * (v - w) ^ 2) ∨
+      φ v = some (fw + d * (v - w) + c₂ * (v - w) ^ 2)) :
+    IsRegSubgrad φ w g ↔ g = d := by
+  obtain ⟨δ, hδ, H⟩ := hφ
+  refine subgrad_iff_of_quad_bound fw d (max |c₁| |c₂|) g ⟨δ, hδ, fun v hv => ?_⟩
+  rcases H v hv with h | h
+  · refine ⟨_, h, ?_⟩
+    have e : fw + d * (v - w) + c₁ * (v - w) ^ 2 - fw - d * (v - w) = c₁ * (v - w) ^ 2 := by ring
+    rw [e, abs_mul, abs_of_nonneg (sq_nonneg (v - w))]
+    exact mul_le_mul_of_nonneg_right (le_max_left _ _) (sq_nonneg _)
+  · refine ⟨_, h, ?_⟩
+    have e : fw + d * (v - w) + c₂ * (v - w) ^ 2 - fw - d * (v - w) = c₂ * (v - w) ^ 2 := by ring
+    rw [e, abs_mul, abs_of_nonneg (sq_nonneg (v - w))]
+    exact mul_le_mul_of_nonneg_right (le_max_right _ _) (sq_nonneg _)
+
+/-! ### absolute value near a non-zero point -/
+
+theorem sgn_mul_self {w : ℝ} (hw : w ≠ 0) : sgn w * sgn w = 1 := by
+  rcases lt_or_gt_of_ne hw with h | h
+  · rw [sgn_neg h]; ring
+  · rw [sgn_pos h]; ring
+
+theorem sgn_mul_eq_abs (w : ℝ) : sgn w * w = |w| := by
+  rcases lt_trichotomy w 0 with h | h | h
+  · rw [sgn_neg h, abs_of_neg h]; ring
+  · subst h; simp
+  · rw [sgn_pos h, abs_of_pos h]; ring
+
+theorem abs_near {v w : ℝ} (h : |v - w| < |w|) : |v| = sgn w * v := by
+  rcases lt_trichotomy w 0 with hw | hw | hw
+  · rw [sgn_neg hw]
+    rw [abs_of_neg hw] at h
+    have := (abs_lt.1 h).2
+    rw [abs_of_neg (by linarith)]; ring
+  · subst hw; simp at h; exact absurd h (not_lt.2 (abs_nonneg _))
+  · rw [sgn_pos hw]
+    rw [abs_of_pos hw] at h
+    have := (abs_lt.1 h).1
+    rw [abs_of_pos (by linarith)]; ring
+
+theorem abs_near_le (v w : ℝ) : |v| ≤ |w| + |v - w| := by
+  have := abs_add_le w (v - w)
+  simpa using this
+
+theorem abs_near_ge (v w : ℝ) : |w| - |v - w| ≤ |v| := by
+  have := abs_add_le v (w - v)
+  rw [abs_sub_comm w v] at this
+  have e : v + (w - v) = w := by ring
+  rw [e] at this
+  linarith
+
+/-! ### functions with an optional positivity constraint -/
+
+/-- `f` with the indicator of `u ≥ 0` added when `pos` -/
+noncomputable def withPos (pos : Bool) (f : ℝ → ℝ) : ℝ → Option ℝ :=
+  fun u => if pos = true ∧ u < 0 then none else some (f u)
+
+theorem withPos_some {pos : Bool} {f : ℝ → ℝ} {u : ℝ} (h : pos = false ∨ 0 ≤ u) :
+    withPos pos f u = some (f u) := by
+  unfold withPos
+  rw [if_neg]
+  rintro ⟨h1, h2⟩
+  rcases h with h | h
+  · rw [h] at h1; cases h1
+  · linarith
+
+theorem withPos_none {f : ℝ → ℝ} {u : ℝ} (h : u < 0) : withPos true f u = none := by
+  unfold withPos
+  rw [if_pos ⟨rfl, h⟩]
+
+theorem withPos_near {pos : Bool} {f : ℝ → ℝ} {v w : ℝ} (hpw : pos = false ∨ 0 < w)
+    (hv : |v - w| < |w|) : withPos pos f v = some (f v) := by
+  apply withPos_some
+  rcases hpw with h | h
+  · exact Or.inl h
+  · right
+    rw [abs_of_pos h] at hv
+    have := (abs_lt.1 hv).1
+    linarith
+
+theorem wp_infeasible {f : ℝ → ℝ} {w : ℝ} (hw : w < 0) (g : ℝ) :
+    ¬ IsRegSubgrad (withPos true f) w g :=
+  no_subgrad_of_none g (withPos_none hw)
+
+/-- at `0` with the constraint: `(-∞, c]` -/
+theorem wp_zero_pos {f : ℝ → ℝ} (fw c q g : ℝ)
+    (h : ∃ δ > 0, ∀ v, 0 ≤ v → v < δ → f v = fw + c * v + q * v ^ 2) :
+    IsRegSubgrad (withPos true f) 0 g ↔ g ≤ c := by
+  obtain ⟨δ, hδ, H⟩ := h
+  have h0 : withPos true f 0 = some fw := by
+    rw [withPos_some (Or.inr (le_refl _)), H 0 (le_refl _) hδ]; simp
+  refine subgrad_iff_left_none g h0 ⟨1, one_pos, fun t ht _ => ?_⟩ ?_
+  · exact withPos_none (by linarith)
+  · refine SideSlope.of_quad q (Or.inl rfl) ⟨δ, hδ, fun t ht htδ => ?_⟩
+    have e : (0 : ℝ) + 1 * t = t := by ring
+    rw [e, withPos_some (Or.inr ht.le), H t ht.le htδ]
+    congr 1; ring
+
+/-- at `0` without constraint, `f = fw + c|v| + q v²` near `0`: `[-c, c]` -/
+theorem wp_zero {f : ℝ → ℝ} (fw c q g : ℝ)
+    (h : ∃ δ > 0, ∀ v, |v| < δ → f v = fw + c * |v| + q * v ^ 2) :
+    IsRegSubgrad (withPos false f) 0 g ↔ -c ≤ g ∧ g ≤ c := by
+  obtain ⟨δ, hδ, H⟩ := h
+  have h0 : withPos false f 0 = some fw := by
+    rw [withPos_some (Or.inl rfl), H 0 (by simpa using hδ)]; simp
+  refine subgrad_iff_kink g h0 ?_ ?_
+  · refine SideSlope.of_quad q (Or.inr rfl) ⟨δ, hδ, fun t ht htδ => ?_⟩
+    have e : (0 : ℝ) + -1 * t = -t := by ring
+    rw [e, withPos_some (Or.inl rfl), H (-t) (by rw [abs_neg, abs_of_pos ht]; exact htδ),
+      abs_neg, abs_of_pos ht]
+    congr 1; ring
+  · refine SideSlope.of_quad q (Or.inl rfl) ⟨δ, hδ, fun t ht htδ => ?_⟩
+    have e : (0 : ℝ) + 1 * t = t := by ring
+    rw [e, withPos_some (Or.inl rfl), H t (by rw [abs_of_pos ht]; exact htδ), abs_of_pos ht]
+    congr 1; ring
+
+/-- away from `0` (and feasible): one quadratic piece -/
+theorem wp_away_quad {pos : Bool} {f : ℝ → ℝ} {w : ℝ} (hpw : pos = false ∨ 0 < w) (hw0 : w ≠ 0)
+    (fw d c g : ℝ)
+    (h : ∃ δ > 0, ∀ v, |v - w| < δ → |v - w| < |w| →
+      f v = fw + d * (v - w) + c * (v - w) ^ 2) :
+    IsRegSubgrad (withPos pos f) w g ↔ g = d := by
+  obtain ⟨δ, hδ, H⟩ := h
+  have hw : 0 < |w| := abs_pos.2 hw0
+  refine subgrad_iff_of_quad fw d c g ⟨min δ |w|, lt_min hδ hw, fun v hv => ?_⟩
+  have h1 := lt_of_lt_of_le hv (min_le_left _ _)
+  have h2 := lt_of_lt_of_le hv (min_le_right _ _)
+  rw [withPos_near hpw h2, H v h1 h2]
+
+/-- away from `0` (and feasible): C¹ junction of two quadratic pieces -/
+theorem wp_away_two_quads {pos : Bool} {f : ℝ → ℝ} {w : ℝ} (hpw : pos = false ∨ 0 < w)
+    (hw0 : w ≠ 0) (fw d c₁ c₂ g : ℝ)
+    (h : ∃ δ > 0, ∀ v, |v - w| < δ → |v - w| < |w| →
+      f v = fw + d * (v - w) + c₁ * (v - w) ^ 2 ∨ f v = fw + d * (v - w) + c₂ * (v - w) ^ 2) :
+    IsRegSubgrad (withPos pos f) w g ↔ g = d := by
+  obtain ⟨δ, hδ, H⟩ := h
+  have hw : 0 < |w| := abs_pos.2 hw0
+  refine subgrad_iff_of_two_quads fw d c₁ c₂ g ⟨min δ |w|, lt_min hδ hw, fun v hv => ?_⟩
+  have h1 := lt_of_lt_of_le hv (min_le_left _ _)
+  have h2 := lt_of_lt_of_le hv (min_le_right _ _)
+  rw [withPos_near hpw h2]
+  rcases H v h1 h2 with e | e
+  · left; rw [e]
+  · right; rw [e]
+
+/-- away from `0` (and feasible): `f` agrees near `w` with a function differentiable at `w` -/
+theorem wp_away_deriv {pos : Bool} {f f₁ : ℝ → ℝ} {w d : ℝ} (hpw : pos = false ∨ 0 < w)
+    (hw0 : w ≠ 0) (g : ℝ) (hd : HasDerivAt f₁ d w)
+    (h : ∀ v, |v - w| < |w| → f v = f₁ v) :
+    IsRegSubgrad (withPos pos f) w g ↔ g = d := by
+  have hw : 0 < |w| := abs_pos.2 hw0
+  refine subgrad_iff_of_deriv g hd ⟨|w|, hw, fun v hv => ?_⟩
+  rw [withPos_near hpw hv, h v hv]
+
+end Skglm.Proofs.SD
